@@ -522,3 +522,34 @@ pub fn far_along(g: &dyn DynGen, value: u64) -> Option<Box<dyn DynGen>> {
         _ => None,
     }
 }
+
+
+/// HC-128 marathon (C14, C18 corpus): one instance produces `chunks` x 4 MiB; a rare event in the key
+/// stream itself (two equal adjacent words: 2^-32 per word) cannot be crafted for a non-invertible
+/// cipher, it has to be met. The digest takes the first and last eight bytes of every chunk.
+pub fn marathon_spec(rng: &mut Prng, prop: &str, variant: &str, chunks: u64) -> Spec {
+    let mut spec = Spec { prop: prop.into(), variant: variant.into(), kind: Some(Kind::Hc128), ..Default::default() };
+    spec.seed = Some(gen_seed(rng, Kind::Hc128));
+    spec.aux = vec![chunks];
+    spec
+}
+
+pub fn run_marathon(spec: &Spec, st: &mut Stats) -> Result<(), SutFail> {
+    let kind = spec.kind.expect("kind");
+    let mut g = match construct(kind, spec.seed.as_ref().expect("seed"))? {
+        Constructed::Ok(g, _) => g,
+        Constructed::Err(..) => return Ok(()),
+    };
+    let chunks = spec.aux.first().copied().unwrap_or(1);
+    let mut buf = vec![0u8; 4 << 20];
+    for _ in 0..chunks {
+        let gm = g.as_mut();
+        let bm = &mut buf;
+        guard(|| gm.fill_bytes(bm))?;
+        st.log.bytes(&buf[..8]);
+        st.log.bytes(&buf[buf.len() - 8..]);
+    }
+    st.add("probe:marathon_mebibytes", 4 * chunks);
+    st.sig(&[kind.id(), 4243]);
+    Ok(())
+}
